@@ -1,4 +1,203 @@
-import IgrisModel.C01.Model
+/-
+  C01 — PROPERTY THEOREMS: intrusive lists stay well-formed and ordered under
+  any operation history.
+
+  The abstract state is a family of pairwise disjoint cyclic sequences
+  (`Rings`); `RingsOK h A` says the heap realises it: forward links follow each
+  sequence and close it, every successor points back.  `AStep` is the reference
+  semantics of every operation (all aliasing cases: moving a node next to
+  itself, to its current neighbour, inside one ring, between rings; single
+  element rings; popping an empty list).  A list with head `hd` and contents
+  `xs` is the ring `hd :: xs`.
+-/
+import IgrisModel.C01.Refine
 namespace Igris.C01
-theorem placeholder_c01 : True := trivial
+
+/-- a history of the reference semantics -/
+inductive ARun : Rings → List Op → Rings → Prop
+  | nil (A) : ARun A [] A
+  | cons {A B C op ops} : AStep A op B → ARun B ops C → ARun A (op :: ops) C
+
+/-- one operation: the heap operation realises the reference operation -/
+theorem step_refines {h : Heap} {A A' : Rings} {op : Op} (ok : RingsOK h A) (st : AStep A op A') :
+    RingsOK (exec h op) A' := step_refines_c ok st
+
+/-- HISTORY THEOREM.  For every finite sequence of operations that the
+reference semantics admits, over any number of nodes and lists, the heap after
+the sequence realises the reference family. -/
+theorem run_refines {h : Heap} {A A' : Rings} {ops : List Op} (ok : RingsOK h A) (r : ARun A ops A') :
+    RingsOK (run h ops) A' := by
+  induction r generalizing h with
+  | nil => exact ok
+  | cons st _ ih => exact ih (step_refines ok st)
+
+/-- the empty family is realised by every heap (no node is initialised yet) -/
+theorem empty_ok (h : Heap) : RingsOK h [] := ⟨by simp, List.Pairwise.nil⟩
+
+/-! ### what a well-formed family means for the observable queries -/
+
+/-- forward traversal yields exactly the reference sequence, backward traversal its
+reverse; size, size_reversed, emptiness and membership agree -/
+theorem queries_agree {h : Heap} {A : Rings} {hd : Nat} {xs : List Nat} (ok : RingsOK h A)
+    (hm : (hd :: xs) ∈ A) (fuel : Nat) (hf : xs.length + 1 < fuel) :
+    dlistToList h fuel hd = xs ∧ dlistToListRev h fuel hd = xs.reverse ∧
+    dlistSize h fuel hd = xs.length ∧ dlistSizeReversed h fuel hd = xs.length ∧
+    (dlistEmpty h hd = true ↔ xs = []) ∧ (∀ x, dlistIn h fuel x hd = true ↔ x ∈ xs) := by
+  obtain ⟨a, ys, e, r⟩ := ok.ring _ hm
+  injection e with e1 e2; subst e1; subst e2
+  have h1 := dlistToList_ring h hd xs r fuel hf
+  have h2 := dlistToListRev_ring h hd xs r fuel hf
+  refine ⟨h1, h2, by simp [dlistSize, h1], by simp [dlistSizeReversed, h2], ?_, ?_⟩
+  · unfold dlistEmpty
+    cases xs with
+    | nil => have := r.fwd; simp only [Seg] at this; simp [this]
+    | cons x xs =>
+      have := r.fwd; simp only [Seg] at this
+      have hne : x ≠ hd := by
+        have := r.nodup; simp only [List.nodup_cons, List.mem_cons, not_or] at this
+        exact fun e => this.1.1 e.symm
+      simp [this.1, hne]
+  · intro x; simp [dlistIn, h1]
+
+/-- the same holds whichever member the ring is read from and wherever it sits in
+the family (`Same`) -/
+theorem queries_agree_same {h : Heap} {A A' : Rings} {hd : Nat} {xs : List Nat} (ok : RingsOK h A)
+    (s : Same A A') (hm : (hd :: xs) ∈ A') (fuel : Nat) (hf : xs.length + 1 < fuel) :
+    dlistToList h fuel hd = xs ∧ dlistToListRev h fuel hd = xs.reverse :=
+  let q := queries_agree (ok.same s) hm fuel hf
+  ⟨q.1, q.2.1⟩
+
+/-- every linked node's neighbours point back at it and stay inside its ring -/
+theorem neighbours_point_back {h : Heap} {A : Rings} {r : List Nat} (ok : RingsOK h A) (hr : r ∈ A) :
+    ∀ y ∈ r, h.prev (h.next y) = y ∧ h.next (h.prev y) = y ∧ h.next y ∈ r ∧ h.prev y ∈ r := by
+  obtain ⟨a, xs, e, ring⟩ := ok.ring r hr
+  subst e
+  intro y hy
+  exact ⟨ring.back y hy, (ring.prev_next y hy).1, ring.next_mem y hy, (ring.prev_next y hy).2⟩
+
+/-- a node that is in no ring (removed with `dlist_del`, destroyed, or never
+linked) is reachable from no list: no ring member points at it -/
+theorem free_unreachable {h : Heap} {A : Rings} {a : Nat} (ok : RingsOK h A) (hf : Free A a) :
+    ∀ r ∈ A, ∀ y ∈ r, h.next y ≠ a ∧ h.prev y ≠ a := by
+  intro r hr y hy
+  obtain ⟨_, _, hn, hp⟩ := neighbours_point_back ok hr y hy
+  exact ⟨fun e => hf r hr (e ▸ hn), fun e => hf r hr (e ▸ hp)⟩
+
+/-- `dlist_del` really removes: afterwards the entry is in no ring of the family -/
+theorem del_makes_free {h : Heap} {a x : Nat} {xs : List Nat} {B : Rings}
+    (ok : RingsOK h ((a :: x :: xs) :: B)) :
+    RingsOK (dlistDel h a) ((x :: xs) :: B) ∧ Free ((x :: xs) :: B) a := ok.del
+
+/-- an unlinked C++ node / a del_init'ed C node is self-linked, and removing it
+again is harmless: the heap does not change at all -/
+theorem unlinked_is_self_linked_and_idempotent {h : Heap} {a : Nat} {B : Rings}
+    (ok : RingsOK h ([a] :: B)) :
+    h.next a = a ∧ h.prev a = a ∧ nodeUnlink h a = h ∧ dlistDelInit h a = h := by
+  obtain ⟨⟨a', xs', e, r⟩, _, _⟩ := ok.head
+  injection e with e1 e2; subst e1; subst e2
+  have hn : h.next a = a := r.fwd
+  have hp : h.prev a = a := by have := r.back a (by simp); rw [hn] at this; exact this
+  obtain ⟨e1, e2⟩ := dlistDelInit_single h a r
+  have hd : dlistDelInit h a = h := Heap.ext' e1 e2
+  exact ⟨hn, hp, by rw [nodeUnlink_eq_delInit r, hd], hd⟩
+
+/-- `dlist_is_correct` answers true on every list of fewer than 1000 nodes -/
+theorem check_steps (h : Heap) (fnd : Nat) (l : List Nat) (it : Nat) (steps count : Nat)
+    (hs : Seg h.next it l fnd) (hnot : fnd ∉ l) (hc : l.length < count) :
+    dlistCheckAux h fnd count it steps = ((steps + l.length : Nat) : Int) := by
+  induction l generalizing it steps count with
+  | nil =>
+    simp only [Seg] at hs
+    match count, hc with
+    | c + 1, _ => simp [dlistCheckAux, hs]
+  | cons x xs ih =>
+    simp only [Seg] at hs
+    match count, hc with
+    | c + 1, hc =>
+      have hx : fnd ≠ x := fun e => hnot (by simp [e])
+      simp only [dlistCheckAux, hs.1, hx, if_false]
+      rw [ih x (steps + 1) c hs.2 (fun hm => hnot (by simp [hm])) (by simp at hc ⊢; omega)]
+      simp only [List.length_cons]; congr 1; omega
+
+theorem is_correct_on_rings {h : Heap} {A : Rings} {hd : Nat} {xs : List Nat} (ok : RingsOK h A)
+    (hm : (hd :: xs) ∈ A) (hlen : xs.length < 1000) : dlistIsCorrect h hd = true := by
+  obtain ⟨a, ys, e, r⟩ := ok.ring _ hm
+  injection e with e1 e2; subst e1; subst e2
+  have hnot : hd ∉ xs := (List.nodup_cons.mp r.nodup).1
+  have c1 : dlistCheck h hd 1000 = (xs.length : Int) := by
+    have := check_steps h hd xs hd 0 1000 r.fwd hnot hlen
+    simpa [dlistCheck] using this
+  have rf := r.flip
+  have hnot' : hd ∉ xs.reverse := by simpa using hnot
+  have c2 : dlistCheckReversed h hd 1000 = (xs.length : Int) := by
+    have key : ∀ count it steps, dlistCheckRevAux h hd count it steps = dlistCheckAux h.flip hd count it steps := by
+      intro count; induction count with
+      | zero => intros; rfl
+      | succ c ih => intro it steps; simp only [dlistCheckRevAux, dlistCheckAux, ih]; rfl
+    have := check_steps h.flip hd xs.reverse hd 0 1000 rf.fwd hnot' (by simpa using hlen)
+    simpa [dlistCheckReversed, key] using this
+  simp [dlistIsCorrect, c1, c2]
+
+/-! ### historical witnesses of the three repaired defects (models of the old code) -/
+
+/-- `dlist_move` as it was: `__dlist_del` without re-initialising the entry -/
+def dlistMoveOrig (h : Heap) (l head : Nat) : Heap :=
+  dlistAddNext (dlistDelRaw h (h.prev l) (h.next l)) l head
+
+/-- ring 0 → 2 → 1 → 0 built by `dlist_add_next(1,0); dlist_add_next(2,0)` -/
+def ring3 : Heap := dlistAddNext (dlistAddNext ((List.range 3).foldl dlistInit ⟨id, id⟩) 1 0) 2 0
+
+/-- old `dlist_move(0, 0)`: node 2's `prev` still points at 0 although 0 left
+the ring (1.next = 2): neighbours no longer point back -/
+theorem dlist_move_self_witness :
+    (dlistMoveOrig ring3 0 0).next 1 = 2 ∧ (dlistMoveOrig ring3 0 0).prev 2 = 0 ∧
+    (dlistMoveOrig ring3 0 0).next 0 = 0 := by decide
+
+/-- the repaired `dlist_move(0, 0)` leaves the ring 1 ↔ 2 and node 0 alone -/
+theorem dlist_move_self_fixed :
+    (dlistMove ring3 0 0).next 1 = 2 ∧ (dlistMove ring3 0 0).prev 2 = 1 ∧
+    (dlistMove ring3 0 0).next 2 = 1 ∧ (dlistMove ring3 0 0).next 0 = 0 ∧ (dlistMove ring3 0 0).prev 0 = 0 := by
+  decide
+
+/-- `unlink_and_move_all_nodes_from_other` as it was, applied to an empty source:
+the destination head ends up pointing at the source head, which is self-linked -/
+def listSpliceOrig (h : Heap) (l oth : Nat) : Heap :=
+  let h := nodeUnlink h l
+  let h := h.setNext l (h.next oth)
+  let h := h.setPrev l (h.prev oth)
+  let h := h.setPrev (h.next l) l
+  let h := h.setNext (h.prev l) l
+  let h := h.setNext oth oth
+  h.setPrev oth oth
+
+theorem splice_from_empty_witness :
+    (listSpliceOrig ⟨id, id⟩ 0 1).next 0 = 1 ∧ (listSpliceOrig ⟨id, id⟩ 0 1).next 1 = 1 ∧
+    (listSplice ⟨id, id⟩ 0 1).next 0 = 0 := by decide
+
+end Igris.C01
+
+namespace Igris.C01
+-- non-vacuity: the reference semantics admits a history with the aliasing cases
+-- (re-insertion after removal, move onto itself, move onto the current neighbour)
+example : ARun [] [.cinit 0, .cinit 1, .cinit 2, .caddNext 1 0, .caddPrev 2 0, .cmove 1 1, .cmove 2 0, .cdel 2,
+    .caddNext 2 0] [[0, 2], [1]] := by
+  refine .cons (.cinitFree (by simp [Free])) ?_
+  refine .cons (.cinitFree (by simp [Free])) ?_
+  refine .cons (.cinitFree (by simp [Free])) ?_
+  -- [[2],[1],[0]]
+  refine .cons (.caddNext (lnk := 1) (head := 0) (ys := []) (B := [[2]])
+    (.perm (by decide))) ?_
+  -- [[0,1],[2]]
+  refine .cons (.caddPrev (lnk := 2) (head := 0) (ys := [1]) (B := []) (.perm (by decide))) ?_
+  -- [[0,1,2]]
+  refine .cons (.cmoveSelf (a := 1) (x := 2) (xs := [0]) (B := [])
+    (.rot (l1 := [0]) (b := 1) (l2 := [2]) (B := []))) ?_
+  -- [[1],[2,0]]
+  refine .cons (.cmoveSame (l := 2) (pre := []) (head := 0) (post := []) (B := [[1]]) (.perm (by decide))) ?_
+  -- [[0,2],[1]]
+  refine .cons (.cdel (a := 2) (x := 0) (xs := []) (B := [[1]])
+    (.rot (l1 := [0]) (b := 2) (l2 := []) (B := [[1]]))) ?_
+  -- [[0],[1]]
+  refine .cons (.caddNextFree (lnk := 2) (head := 0) (ys := []) (B := [[1]]) (.refl _) (by simp [Free])) ?_
+  exact .nil _
 end Igris.C01
